@@ -27,8 +27,20 @@ def prove(ctx):
 MODES = [(m, p) for m in (False, True) for p in (False, True)]
 
 
-def make_instance(rng, backend, max_states):
-    decl = games.random_decl(rng, max_states=max_states)
+# the same identifier is a constant in one automaton and a variable in the
+# next ones of the same process: nothing may be remembered by identifier name
+# across contexts (seeded change C11-9)
+ROLE_SWAP = [
+    dict(const={'m': (0, 1)}, env={'x': 'bool'}, sys={'y': (0, 1)}),
+    dict(const={}, env={'x': 'bool'}, sys={'m': (0, 1)}),
+    dict(const={'y': 'bool'}, env={'m': (0, 1)}, sys={'x': 'bool'}),
+    dict(const={'x': 'bool'}, env={'y': 'bool'}, sys={'m': (0, 1)}),
+]
+
+
+def make_instance(rng, backend, max_states, decl=None):
+    if decl is None:
+        decl = games.random_decl(rng, max_states=max_states)
     ar = games.Arena(decl, backend)
     E = games.rand_table2(rng, ar, rng.choice([0.5, 0.7, 0.9]),
                           no_yp=rng.random() < 0.6)
@@ -117,7 +129,10 @@ def correspond(ctx):
     nontrivial = set()
     for i in range(n_inst):
         backend = 'cudd' if i % 2 else 'autoref'
-        inst = make_instance(ctx.rng, backend, max_states)
+        k = i // 2
+        inst = make_instance(ctx.rng, backend, max_states,
+                             decl=ROLE_SWAP[k] if k < len(ROLE_SWAP)
+                             else None)
         try:
             impl = run_impl(inst)
         except Exception as e:  # the property says these must succeed
@@ -180,8 +195,26 @@ def correspond(ctx):
 
 
 def _case(inst):
-    return {k: inst[k] for k in ('decl', 'backend', 'E', 'S', 'T', 'safe',
-                                 'unless', 'inside', 'src', 'constrain')}
+    c = {k: inst[k] for k in ('decl', 'backend', 'E', 'S', 'T', 'safe',
+                              'unless', 'inside', 'src', 'constrain')}
+    if inst['decl'] in ROLE_SWAP:
+        # the history is part of the input: automata used before in the
+        # same process
+        c['preceded_by'] = ROLE_SWAP[:ROLE_SWAP.index(inst['decl'])]
+    return c
+
+
+def _replay_history(case):
+    """Use automata with the recorded earlier declarations first (both
+    back ends), as the run that found the case did."""
+    import random
+    rng = random.Random(0)
+    for decl in case.get('preceded_by', []):
+        for backend in ('autoref', 'cudd'):
+            try:
+                run_impl(make_instance(rng, backend, 16, decl=decl))
+            except Exception:
+                pass
 
 
 # ---------------------------------------------------------------- search
@@ -290,8 +323,9 @@ def search(ctx, broken, mismatches):
         if m.case is None:
             continue
         inst = dict(m.case)
-        inst['ar'] = games.Arena(inst['decl'], inst['backend'])
         try:
+            _replay_history(m.case)
+            inst['ar'] = games.Arena(inst['decl'], inst['backend'])
             f = oracle_check(inst, run_impl(inst))
         except Exception as e:
             f = Failing('implementation raised ' + repr(e), m.case)
@@ -321,8 +355,12 @@ def replay(path):
     d = json.load(open(path))
     case = d.get('input') or d.get('case')
     inst = dict(case)
-    inst['ar'] = games.Arena(inst['decl'], inst['backend'])
-    f = oracle_check(inst, run_impl(inst))
+    try:
+        _replay_history(case)
+        inst['ar'] = games.Arena(inst['decl'], inst['backend'])
+        f = oracle_check(inst, run_impl(inst))
+    except Exception as e:
+        f = Failing('implementation raised ' + repr(e), case)
     if f:
         print('still fails:', f.what)
         return 1
